@@ -82,7 +82,31 @@ def run_files(ctx, files, found_by):
     ctx.sample({'stage': found_by, 'files': [os.path.basename(f) for f in files[:8]]})
 
 
+def decision_ties(ctx):
+    """the ties of the decision-logic theorems: the fold model (its "not longer" guard) against the implementation on the
+    length-boundary expressions.  A difference is a broken correspondence, not by itself a violation: the corpus decides."""
+    from props import c07
+    import sexp
+    reqs, keep = [], []
+    for src in c07.length_boundary_programs():
+        r = c07.check_program(ctx, src, 'c17-tie', do_oracle=False)
+        if r is None or r[0] is None:
+            continue
+        reqs.append(r[0])
+        keep.append((src, r[1]))
+    answers = ctx.driver.ask(reqs) if reqs else []
+    diffs = 0
+    for (src, impl), ans in zip(keep, answers):
+        model = sexp.dec_str(ans[3:]) if ans.startswith('ok ') else ans
+        ctx.count()
+        if model != impl:
+            diffs += 1
+            ctx.add_broken('correspondence', 'fold length guard', 'source=%r model=%r impl=%r' % (src, model[:120], impl[:120]))
+    ctx.stage('tie:fold-length-guard', cases=len(keep), diffs=diffs)
+
+
 def run(ctx):
+    decision_ties(ctx)
     files = corpus(ctx)
     if ctx.tier == 'thorough':
         ctx.exhaustive['corpus_files_x_options_x_bases'] = len(files) * len(SIZE_OPTIONS) * 2
